@@ -43,7 +43,7 @@ func init() {
 		Run: runMISSERR,
 	})
 	Register(&Rule{
-		ID: "S3KEY", Props: []string{"C18"}, Min: 6,
+		ID: "S3KEY", Props: []string{"C18", "C03", "C05"}, Min: 6,
 		Doc: "persist/s3: Load and Store pass an input whose Key is aws.String(receiver.Prefix + name) and whose Bucket is &receiver.BucketName, " +
 			"identically; PutObjectInput.Body wraps exactly the bytes parameter; Load returns what it reads from the output's Body.",
 		Run: runS3KEY,
@@ -731,6 +731,8 @@ type prefixCheck struct {
 	bad   []string
 	und   []string
 	depth int
+	srcs  int // identity sources reached: fields, the receiver's address, a wrapped store's prefix
+	notes []string
 }
 
 // sprintfVerbsOK: only verbs that print their operand completely.
@@ -761,7 +763,10 @@ func (pc *prefixCheck) value(v ssa.Value, ri *recvInfo, d int) {
 	}
 	v = ir.Strip(ir.ResolveCell(v))
 	switch x := v.(type) {
-	case *ssa.Const, *ssa.Parameter:
+	case *ssa.Const:
+		return
+	case *ssa.Parameter:
+		pc.srcs++ // the receiver (its address, %p) in a method; a configuration parameter in a constructor
 		return
 	case *ssa.BinOp:
 		if x.Op == token.ADD && isStringType(x.Type()) {
@@ -803,6 +808,16 @@ func (pc *prefixCheck) value(v ssa.Value, ri *recvInfo, d int) {
 	case *ssa.Convert:
 		pc.value(x.X, ri, d+1)
 	case *ssa.Call:
+		// a wrapper delegating to the wrapped store: same container, same prefix
+		if x.Call.IsInvoke() && x.Call.Method.Name() == "NodeURLPrefix" && ri != nil {
+			if f, ok := ri.fieldOf(x.Call.Value); ok {
+				if it := persistIface(pc.c); it != nil && types.Implements(x.Call.Value.Type(), it) && len(fieldStoresInMethods(pc.c, pc.b, f)) == 0 {
+					pc.srcs++
+					pc.notes = append(pc.notes, "delegates to the NodeURLPrefix of the wrapped store in field "+f+" (injective iff that one is)")
+					return
+				}
+			}
+		}
 		id := staticID(x)
 		args := x.Call.Args
 		switch {
@@ -855,6 +870,7 @@ func (pc *prefixCheck) value(v ssa.Value, ri *recvInfo, d int) {
 // Load/Store is complete by construction (CTORVERBATIM); a derived field must
 // itself be assembled injectively by every function that stores it.
 func (pc *prefixCheck) field(f string) {
+	pc.srcs++
 	pc.depth++
 	defer func() { pc.depth-- }()
 	if pc.depth > 3 {
@@ -891,9 +907,85 @@ func runPREFIXIDENT(c *Ctx) {
 					fmt.Sprintf("NodeURLPrefix of %s passes the store's location through %s: two stores at different locations can report the same prefix, and with a shared NodeCache a node flushed to one is then never written to the other", b.String(), strings.Join(uniq(pc.bad), "; ")))
 			case len(pc.und) > 0:
 				c.Undecided(pfx, P.InstrPos(r), "prefix construction", "cannot decide whether the prefix is injective: it involves "+strings.Join(uniq(pc.und), "; "))
+			case pc.srcs == 0:
+				c.Violation(pfx, P.InstrPos(r), "prefix is a constant",
+					fmt.Sprintf("NodeURLPrefix of %s does not depend on the store at all: every instance reports the same prefix, so with a shared NodeCache a node flushed to one store is never written to another", b.String()))
+			case len(pc.notes) > 0:
+				c.OK(P.InstrPos(r), "NodeURLPrefix of "+b.String(), strings.Join(uniq(pc.notes), "; "), false)
 			default:
 				c.OK(P.InstrPos(r), "NodeURLPrefix of "+b.String(), "assembled from complete fields / the receiver's address by concatenation and full-width verbs only", false)
 			}
+		}
+	}
+}
+
+// fieldStoresInMethods: stores into field f of T outside constructors.
+func fieldStoresInMethods(c *Ctx, b backendImpl, f string) []*ssa.Store {
+	var out []*ssa.Store
+	for _, s := range fieldStoresOf(c, b, f) {
+		fa := s.Addr.(*ssa.FieldAddr)
+		if _, fresh := fa.X.(*ssa.Alloc); !fresh || s.Parent().Signature.Recv() != nil {
+			out = append(out, s)
+		}
+	}
+	return out
+}
+
+// ===========================================================================
+// WRAPVERBATIM
+
+func init() {
+	Register(&Rule{
+		ID: "WRAPVERBATIM", Props: []string{"C18"}, Min: 0,
+		Doc: "a mast.Persist implementation that delegates Load/Store to another Persist held in a field (a wrapper) passes its own name and " +
+			"bytes parameters through unchanged to the same method of the wrapped store, so that it honours the node-store contract iff the " +
+			"wrapped store does (the returned data and error are MISSERR's and ERRPROP_BACKEND's clauses).",
+		Run: runWRAPVERBATIM,
+	})
+}
+
+func runWRAPVERBATIM(c *Ctx) {
+	P := c.P
+	it := persistIface(c)
+	if it == nil {
+		return
+	}
+	for _, b := range backendImpls(c, backendPkgs...) {
+		for _, m := range []struct {
+			fn   *ssa.Function
+			name string
+		}{{b.load, "Load"}, {b.store, "Store"}} {
+			root := rootFrame(P, m.fn)
+			frameCalls(root, func(call *ssa.Call, fr *frame) {
+				com := call.Call
+				if !com.IsInvoke() || !types.Implements(com.Value.Type(), it) {
+					return
+				}
+				if _, isIface := com.Value.Type().Underlying().(*types.Interface); !isIface {
+					return
+				}
+				what := fmt.Sprintf("delegated %s in %s", com.Method.Name(), ir.FuncName(m.fn))
+				switch com.Method.Name() {
+				case "Load", "Store":
+				default:
+					return
+				}
+				if com.Method.Name() != m.name {
+					c.Violation(fr.fn, P.InstrPos(call), m.name+" delegates to "+com.Method.Name(), fmt.Sprintf("%s of the wrapper calls %s of the wrapped store", m.name, com.Method.Name()))
+					return
+				}
+				if len(com.Args) < 2 || !isRootParam(com.Args[1], fr, 2) {
+					c.Violation(fr.fn, P.InstrPos(call), "wrapper changes the name",
+						fmt.Sprintf("%s passes %s instead of its own name parameter to the wrapped store: nodes are stored or looked up under a different name than the caller's", ir.FuncName(m.fn), descFval(expand(com.Args[1], fr))))
+					return
+				}
+				if m.name == "Store" && (len(com.Args) < 3 || !isRootParam(com.Args[2], fr, 3)) {
+					c.Violation(fr.fn, P.InstrPos(call), "wrapper changes the bytes",
+						fmt.Sprintf("%s passes %s instead of its own bytes parameter to the wrapped store: what is loaded later is not what was stored", ir.FuncName(m.fn), descFval(expand(com.Args[2], fr))))
+					return
+				}
+				c.OK(P.InstrPos(call), what, "name (and bytes) parameters passed through verbatim", false)
+			})
 		}
 	}
 }
